@@ -5,6 +5,7 @@
 -/
 import Spil.Generated.DemoConf
 import Spil.Spec.Sid
+import Spil.Spec.PathWF
 
 open Generated
 
@@ -52,5 +53,12 @@ theorem patterns_ok : demoSidPatterns = demoEffectiveTemplates := by decide +ker
     newline-free, distinct keys, distinct non-empty plain labels, same key set ⇒ same key order,
     every level has a type) -/
 theorem demo_wf : Spec.sidHierOk demoEnv demoConf.sid.templates = true := by decide +kernel
+
+/-- the shipped path configurations follow the conventions the deterministic-parse theorems assume
+    (per '/'-free stretch at most one free placeholder, prefix-free vocabularies to its left,
+    suffix-free ones to its right; '/'- and newline-free vocabularies; one-to-one, idempotent value
+    mappings; vocabulary defaults; unique labels) -/
+theorem demo_path_wf_local : Spec.pathConfOk demoEnv demoPath_local = true := by decide +kernel
+theorem demo_path_wf_server : Spec.pathConfOk demoEnv demoPath_server = true := by decide +kernel
 
 end Tie
